@@ -30,6 +30,15 @@ CHECKS["C04"] = dict(
     note="trusted: renderer, projection, TLC; history depth, number of sessions and texts are bounded",
     ref="7 C04")
 
+CHECKS["C10"] = dict(
+    technique="TLA+ spec (Duration.tla) model-checked by TLC; TLC-enumerated duration lines replayed into the code in every unit spelling of every language; random traces validated by TLC (Trace.tla)",
+    text="TLC model-checks on Duration.tla that the greedy parts sum to the magnitude, stay below the next unit, that 'as' floors and the unit identities hold "
+         "for all magnitudes up to 1200 (thorough 40000) days x 16 seconds-of-day around every carry; enumerates written durations of 1..7 parts over boundary counts, "
+         "sums, differences and 'as' conversions with expected value and printed parts, replayed in every spelling of en and tr; random part sequences with counts "
+         "to 10^6 are executed and validated by TLC.",
+    note="trusted: renderer, duration_parts projection (language format table), TLC; counts, part sequences and operand sets are bounded",
+    ref="7 C10")
+
 NOT_YET = {
 }
 
